@@ -8,6 +8,7 @@ import (
 	"encoding/json"
 	"fmt"
 	"os"
+	"runtime"
 	"sync"
 	"time"
 )
@@ -83,15 +84,15 @@ func next(name string, w int) uint64 {
 	return e.Val
 }
 
-func Symbolic() bool          { return false }
-func U8(name string) uint8    { return uint8(next(name, 8)) }
-func U16(name string) uint16  { return uint16(next(name, 16)) }
-func U32(name string) uint32  { return uint32(next(name, 32)) }
-func U64(name string) uint64  { return next(name, 64) }
-func I64(name string) int64   { return int64(next(name, 64)) }
-func I32(name string) int32   { return int32(next(name, 32)) }
-func Int(name string) int     { return int(next(name, 64)) }
-func Bool(name string) bool   { return next(name, 0) != 0 }
+func Symbolic() bool         { return false }
+func U8(name string) uint8   { return uint8(next(name, 8)) }
+func U16(name string) uint16 { return uint16(next(name, 16)) }
+func U32(name string) uint32 { return uint32(next(name, 32)) }
+func U64(name string) uint64 { return next(name, 64) }
+func I64(name string) int64  { return int64(next(name, 64)) }
+func I32(name string) int32  { return int32(next(name, 32)) }
+func Int(name string) int    { return int(next(name, 64)) }
+func Bool(name string) bool  { return next(name, 0) != 0 }
 func Bytes(name string, n int) []byte {
 	b := make([]byte, n)
 	for i := range b {
@@ -222,31 +223,54 @@ func BytesEq(a, b []byte) bool {
 	}
 	return true
 }
-func Fix(v int) int         { return v }
+func Fix(v int) int          { return v }
 func FixU64(v uint64) uint64 { return v }
-func FixBool(v bool) bool   { return v }
-func Yield()                {}
-func Gosched()              { time.Sleep(time.Millisecond) }
+func FixBool(v bool) bool    { return v }
+func Yield()                 {}
+func Gosched()               { time.Sleep(time.Millisecond) }
 
 // WaitQuiescent natively: a grace period, then the number of goroutines is not observable;
 // harnesses use their own completion flags.
-func WaitQuiescent() int   { time.Sleep(200 * time.Millisecond); return -1 }
-func BlockedDesc() string  { return "" }
-func HeldLocks() int       { return -1 }
-func HeldByMe() int        { return -1 }
-func GoroutineID() int     { return -1 }
-func LiveGoroutines() int  { return -1 }
+func WaitQuiescent() int    { time.Sleep(200 * time.Millisecond); return -1 }
+func BlockedDesc() string   { return "" }
+func HeldLocks() int        { return -1 }
+func HeldByMe() int         { return -1 }
+func GoroutineID() int      { return -1 }
+func LiveGoroutines() int   { return -1 }
 func BytesLen(n int) []byte { return make([]byte, n) }
-func AllocBudget(n uint64) {}
-func AllocBudgetOff()      {}
+
+// AllocBudget / AllocBudgetOff natively: bytes allocated in between (runtime.MemStats) must
+// not exceed the budget by more than a slack for the small fixed-size allocations the engine's
+// log does not count (buffers of bufio, request structs).
+var allocStart, allocLimit uint64
+var allocOn bool
+
+const allocSlack = 32 << 10
+
+func AllocBudget(n uint64) {
+	var m runtime.MemStats
+	runtime.ReadMemStats(&m)
+	allocStart, allocLimit, allocOn = m.TotalAlloc, n, true
+}
+func AllocBudgetOff() {
+	if !allocOn {
+		return
+	}
+	allocOn = false
+	var m runtime.MemStats
+	runtime.ReadMemStats(&m)
+	if m.TotalAlloc-allocStart > allocLimit+allocSlack {
+		Fail("alloc-budget", fmt.Sprintf("allocated %d bytes, budget %d", m.TotalAlloc-allocStart, allocLimit))
+	}
+}
 func Subst(name string, f interface{}) {
 	panic("rt.Subst is not available natively")
 }
-func ClockSet(sec int64)    {}
-func ClockFreeze(b bool)    {}
-func Clock() int64          { return time.Now().Unix() }
-func RandDistinct(b bool)   {}
-func PoolHavoc(b bool)      {}
+func ClockSet(sec int64)  {}
+func ClockFreeze(b bool)  {}
+func Clock() int64        { return time.Now().Unix() }
+func RandDistinct(b bool) {}
+func PoolHavoc(b bool)    {}
 func Logf(format string, a ...interface{}) {
 	if os.Getenv("VERIF_LOG") != "" {
 		fmt.Printf("LOG "+format+"\n", a...)
@@ -262,3 +286,8 @@ func ChanCap(ch interface{}, n int) {}
 // Guard registers a lock discipline with the symbolic executor: map m may only be read while
 // *mu is held and written while it is write-held (natively the race detector plays this role).
 func Guard(m interface{}, mu interface{}, id string) {}
+
+// Watch registers memory (pointer to struct/scalar, or slice) that goroutines other than the
+// harness' main one may only access with sync/atomic operations or while write-holding *mu
+// (natively the race detector plays this role).
+func Watch(p interface{}, mu interface{}, id string) {}
